@@ -72,6 +72,15 @@ def gen_cases(rng, tier):
         cs.append({"rb": r_oo + rng.choice([0.01, 0.02]), "H": rng.choice([60.0, 100.0, 200.0]), "kg": rng.choice([1.0, 2.0]), "ks": 2.0, "kp": 0.4, "kp_in": rng.choice([0.2, 0.4]), "kp_out": rng.choice([0.4, 0.7]),
                    "m": rng.uniform(0.15, 0.3) if fl == "water" else rng.uniform(0.35, 0.6), "fluid": fl, "conc": 0.0 if fl == "water" else 30.0, "kind": "cx",
                    "r_oo": r_oo, "r_oi": r_oi, "r_io": r_io, "r_ii": r_io * 0.85, "via_manager": k % 2 == 0})
+    # the same exchanger object taken to a second operating point and converted again (what repeated simulate() calls during sizing do)
+    for k in range(3 if tier == "quick" else 12):
+        kind = ["dp", "ds", "cx"][k % 3]
+        base = {"rb": 0.075, "H": 100.0, "kg": 1.0, "ks": 2.0, "kp": 0.4, "m": rng.uniform(0.45, 0.6), "reuse_m": rng.uniform(0.25, 0.35), "fluid": "water", "conc": 0.0, "kind": kind}
+        if kind == "cx":
+            base.update(r_oo=0.055, r_oi=0.0495, r_io=0.025, r_ii=0.02125, kp_in=0.4, kp_out=0.4)
+        else:
+            base.update(ro=0.0133, ri=0.0108, s=0.02)
+        cs.append(base)
     return cs
 
 
@@ -136,6 +145,16 @@ def oracle(chk, c, o):
         chk.violation("to-single", c, {"R_fp_equivalent": o["eq_R_fp"], "R_conv_plus_R_pipe": want_fp, "equivalent_pipe_conductivity": o["eq_k_pipe"], "k_p_prime": kpp,
                                            "conductivity_that_would_reproduce_it": k_star},
                       "the equivalent tube reproduces the combined convective-plus-pipe resistance", signature=KP_SIG if at_end else None)
+    if "reuse" in o:
+        ru = o["reuse"]
+        n += 1
+        # the harness's way of moving the object to the second operating point is validated first: the ORIGINAL exchanger's own resistance
+        # must then be that of a freshly built one (otherwise nothing is concluded)
+        if ru["fresh_R_fp_orig"] and abs(ru["R_fp_orig"] / ru["fresh_R_fp_orig"] - 1) < 1e-9 and ru["fresh_eq_R_fp"]:
+            if abs(ru["eq_R_fp"] / ru["fresh_eq_R_fp"] - 1) > 1e-6 or abs(ru["eq_k_pipe"] / ru["fresh_eq_k_pipe"] - 1) > 1e-6:
+                chk.violation("to-single", c, {"R_fp_equivalent_after_reuse": ru["eq_R_fp"], "R_fp_equivalent_of_a_fresh_exchanger": ru["fresh_eq_R_fp"],
+                                                   "R_fp_of_the_exchanger_at_the_second_flow": ru["R_fp_orig"]},
+                              "the equivalent tube reproduces the combined convective-plus-pipe resistance of the exchanger as it is NOW (second conversion of the same object at another flow)")
     clamped_g = abs(o["eq_k_grout"] - 0.01) < 1e-12 or abs(o["eq_k_grout"] - 7.0) < 1e-12
     rel = abs(o["Rb_eq"] / o["Rb"] - 1)
     if rel > 1e-3:
